@@ -3,7 +3,7 @@
    [run s ops] for all op lists applies) together with the final state; observations are the
    state's [obs] log, into which command results are interleaved in time order. *)
 From Coq Require Import List NArith Arith Bool FMapPositive.
-From Quill Require Import Queue.BQDefs Backend.BEDefs.
+From Quill Require Import Queue.BQDefs BT.BTModel Backend.BEDefs.
 Import ListNotations.
 Local Open Scope N_scope.
 
@@ -18,6 +18,7 @@ Inductive cmd :=
 | CExit (t : nat)
 | CSetLevel (l : nat) (v : N)
 | CSetSinkLevel (k : nat) (v : N)
+| CAddFilter (k : nat) (m : N)
 | CTick (d : N)
 | CCtx
 | CPoll (inj : list (N * N * list cmd)).   (* (yield point, visit, commands) *)
@@ -80,6 +81,7 @@ Definition exec_simple (sx : st * list op) (c : cmd) : st * list op :=
           (* a plain log statement that got through (or was dropped) reports its return value *)
           match ekind e, pend (th (fst sx1) t) with
           | KLog, None => note sx1 [O_RES; if Nat.ltb n0 (length (issued (fst sx1) t)) then 1 else 0]
+          | (KInitBt _ _ | KFlushBt), None => note sx1 [O_RES; 1]     (* init_backtrace / flush_backtrace returned *)
           | _, _ => sx1
           end
       | None, Some _ => continue_thread sx t
@@ -89,11 +91,17 @@ Definition exec_simple (sx : st * list op) (c : cmd) : st * list op :=
       let sx1 := app_ops sx [F (FClock t e)] in
       match pend (th (fst sx1) t) with
       | None => note sx1 [O_RES; 0]
-      | Some _ => continue_thread sx1 t
+      | Some _ =>
+          let sx2 := continue_thread sx1 t in
+          match ekind e, pend (th (fst sx2) t) with
+          | (KInitBt _ _ | KFlushBt), None => note sx2 [O_RES; 1]
+          | _, _ => sx2
+          end
       end
   | CExit t => if busy (fst sx) t then note sx [O_RES; 0] else note (app_ops sx [F (FExit t)]) [O_RES; 1]
   | CSetLevel l v => app_ops sx [F (FSetLevel l v)]
   | CSetSinkLevel k v => app_ops sx [F (FSetSinkLevel k v)]
+  | CAddFilter k m => app_ops sx [F (FAddFilter k m)]
   | CTick d => app_ops sx [F (FTick d)]
   | CCtx => note sx [O_CTX; N.of_nat (length (registered (fst sx)))]
   | CPoll _ => sx
@@ -168,15 +176,17 @@ Definition exec_all_fast (n : nat) (s : st) (cs : list cmd) : st :=
 End X.
 
 (* ------------------------------------------------------------------ decoding a case *)
-Definition kind_of (k capv : N) : kind :=
-  match k with 0 => KLog | 1 => KFlush | 2 => KInitBt (N.to_nat capv) | _ => KFlushBt end.
-Definition fmt_of (f : N) : fmtres := match f with 0 => FOk | 1 => FStdThrow | _ => FOtherThrow end.
+(* formatter behaviour = f mod 10 (f >= 10 marks a static-level statement for the C++ harness only) *)
+Definition fmt_of (f : N) : fmtres := match f mod 10 with 0 => FOk | 1 => FStdThrow | _ => FOtherThrow end.
 Definition mk_ev id lgi lvl sz f : ev :=
   {| eid := id; ets := 0; ekind := KLog; elg := N.to_nat lgi; elvl := lvl; esz := sz; efmt := fmt_of f |}.
 Definition mk_flush id lgi sz : ev :=
   {| eid := id; ets := 0; ekind := KFlush; elg := N.to_nat lgi; elvl := 8; esz := sz; efmt := FOk |}.
+Definition mk_ctl (k : kind) id lgi sz : ev :=
+  {| eid := id; ets := 0; ekind := k; elg := N.to_nat lgi; elvl := 8; esz := sz; efmt := FOk |}.
 
-(* simple commands: 1 t id lg lvl sz fmt | 2 (stall) same | 3 t | 4 t id lg sz | 5 t | 6 l v | 7 k v | 8 d | 10 *)
+(* simple commands: 1 t id lg lvl sz fmt | 2 (stall) same | 3 t | 4 t id lg sz | 5 t | 6 l v | 7 k v | 8 d | 10
+   | 11 t id lg cap flvl sz (init_backtrace) | 12 t id lg sz (flush_backtrace) | 13 k m (add filter) *)
 Fixpoint dec_simple (fuel : nat) (l : list N) : list cmd :=
   match fuel with
   | O => []
@@ -190,6 +200,9 @@ Fixpoint dec_simple (fuel : nat) (l : list N) : list cmd :=
     | 6 :: a :: v :: r => CSetLevel (N.to_nat a) v :: dec_simple f r
     | 7 :: a :: v :: r => CSetSinkLevel (N.to_nat a) v :: dec_simple f r
     | 8 :: d :: r => CTick d :: dec_simple f r
+    | 11 :: t :: id :: lgi :: capv :: fl :: sz :: r => CFlush (N.to_nat t) (mk_ctl (KInitBt (N.to_nat capv) fl) id lgi sz) :: dec_simple f r
+    | 12 :: t :: id :: lgi :: sz :: r => CFlush (N.to_nat t) (mk_ctl KFlushBt id lgi sz) :: dec_simple f r
+    | 13 :: k :: m :: r => CAddFilter (N.to_nat k) m :: dec_simple f r
     | 10 :: r => CCtx :: dec_simple f r
     | _ => []
     end
@@ -224,6 +237,9 @@ Fixpoint dec_cmds (fuel : nat) (l : list N) : list cmd :=
     | 6 :: a :: v :: r => CSetLevel (N.to_nat a) v :: dec_cmds f r
     | 7 :: a :: v :: r => CSetSinkLevel (N.to_nat a) v :: dec_cmds f r
     | 8 :: d :: r => CTick d :: dec_cmds f r
+    | 11 :: t :: id :: lgi :: capv :: fl :: sz :: r => CFlush (N.to_nat t) (mk_ctl (KInitBt (N.to_nat capv) fl) id lgi sz) :: dec_cmds f r
+    | 12 :: t :: id :: lgi :: sz :: r => CFlush (N.to_nat t) (mk_ctl KFlushBt id lgi sz) :: dec_cmds f r
+    | 13 :: k :: m :: r => CAddFilter (N.to_nat k) m :: dec_cmds f r
     | 10 :: r => CCtx :: dec_cmds f r
     | _ => []
     end
@@ -248,7 +264,7 @@ Fixpoint dec_loggers (n : nat) (i : nat) (l : list N) (f : nat -> lgr) : (nat ->
     match l with
     | lvl :: ns :: r =>
         let ks := map N.to_nat (firstn (N.to_nat ns) r) in
-        dec_loggers n' (S i) (skipn (N.to_nat ns) r) (upd f i {| llevel := lvl; lsinks := ks |})
+        dec_loggers n' (S i) (skipn (N.to_nat ns) r) (upd f i (mk_lgr lvl ks))
     | _ => (f, l)
     end
   end.
@@ -259,7 +275,7 @@ Fixpoint dec_sinks (n : nat) (i : nat) (l : list N) (f : nat -> snk) : (nat -> s
     match l with
     | lvl :: nt :: r =>
         let ts := map N.to_nat (firstn (N.to_nat nt) r) in
-        dec_sinks n' (S i) (skipn (N.to_nat nt) r) (upd f i {| slevel := lvl; swrites := 0; sthrow := ts |})
+        dec_sinks n' (S i) (skipn (N.to_nat nt) r) (upd f i (mk_snk lvl ts))
     | _ => (f, l)
     end
   end.
@@ -271,19 +287,21 @@ Definition st0 (clock0 : N) (nl ns : nat) (lgf : nat -> lgr) (skf : nat -> snk) 
      gh := {| g_denied := 0; g_reported := 0; g_lost := 0 |} |}.
 
 (* case: be <dropping> <capk> <batch> <on_batch> <on_drain> <tinit> <soft> <hard> <grace> <bits> <refresh2>
-        <catchall> <report_first> <clock0> <nloggers> {level nsinks sinks..} <nsinks> {level nthrow idx..} commands... *)
+        <catchall> <report_first> <bt_reset> <bt_guard> <bt_catch> <clock0> <nloggers> {level nsinks sinks..} <nsinks> {level nthrow idx..} commands... *)
 Definition be_run_enc (l : list N) : list N :=
   match l with
-  | dr :: capk :: batch :: ob :: od :: tinit :: soft :: hard :: grace :: bits :: rf2 :: ca :: rfirst :: clock0 :: nl :: r =>
+  | dr :: capk :: batch :: ob :: od :: tinit :: soft :: hard :: grace :: bits :: rf2 :: ca :: rfirst :: btr :: btg :: btc :: clock0 :: nl :: r =>
       let K := {| c_cap := 2 ^ capk; c_batch := batch;
                   c_pub := {| on_batch := negb (ob =? 0); on_drain := negb (od =? 0) |};
                   c_dropping := negb (dr =? 0); c_tinit := tinit; c_soft := soft; c_hard := hard;
                   c_grace := grace; c_bits := bits; c_refresh2 := negb (rf2 =? 0); c_catch_all := negb (ca =? 0);
-                  c_report_first := negb (rfirst =? 0) |} in
-      let (lgf, r1) := dec_loggers (N.to_nat nl) 0 r (fun _ => {| llevel := 0; lsinks := [] |}) in
+                  c_report_first := negb (rfirst =? 0);
+                  c_bt := {| reset_index_in_process := negb (btr =? 0); cap0_guard := negb (btg =? 0) |};
+                  c_bt_catch := negb (btc =? 0) |} in
+      let (lgf, r1) := dec_loggers (N.to_nat nl) 0 r (fun _ => mk_lgr 0 []) in
       match r1 with
       | ns :: r2 =>
-          let (skf, r3) := dec_sinks (N.to_nat ns) 0 r2 (fun _ => {| slevel := 0; swrites := 0; sthrow := [] |}) in
+          let (skf, r3) := dec_sinks (N.to_nat ns) 0 r2 (fun _ => mk_snk 0 []) in
           let cs := dec_cmds (length r3) r3 in
           obs (exec_all_fast K (cmds_threads cs) (st0 clock0 (N.to_nat nl) (N.to_nat ns) lgf skf) cs)
       | [] => []
